@@ -528,7 +528,7 @@ def build_checks(s, tier):
             if tier != "thorough" and sh_ not in quick_shapes[perm]:
                 continue
             for kv in kind_variants:
-                if kv != K_ELEM and all(x == "-" for x in sh_):
+                if kv != K_ELEM and (all(x == "-" for x in sh_) or perm not in PERMS3[:2]):
                     continue
                 kinds = [K_UNDEF] * 6
                 vals = ["IN[%d]" % (9 + j) for j in range(6)]
@@ -967,7 +967,6 @@ def extend(res, tier, seed, only=None):
             "checker_cmd": all_obls[0].res.cmd if all_obls and all_obls[0].res else "",
             "samples": pick or smp[:4],
             "stopped": state["stopped"],
-            "all_times": [(o.name[:70], round(o.res.time, 1) if o.res else None, round(o.wres.time, 1) if o.wres else None) for o in all_obls],
             "outside": ["the eqrel storage itself (union-find, iterators, genAllDisjointSetLists): sds.nodeExists / sds.contains are unconstrained booleans and "
                         "begin / end / anteriorIt / antpostit are tokens (C28 not applicable, union-find core: C29)",
                         "the B-tree itself: lower_bound / upper_bound are modelled abstractly through the real comparator (C25 not applicable)",
